@@ -1,5 +1,6 @@
 """C05 — hydration adopts server-rendered HTML without mismatch."""
 from . import common as C
+from . import c05w as W
 
 PID = "C05"
 PROPS_V = "theories/Props/Properties_C05.v"
@@ -619,6 +620,26 @@ def inert_shape_ok(d, top=False):
 
 def valid_case(item):
     c = item["case"]
+    if item.get("kind") == "hydrate-wide":
+        # (6 v v2 skip entry): the wide grammar of the audit through the public entry points
+        if not (isinstance(c, list) and len(c) == 5 and c[0] == 6 and c[3] in (0, 1) and c[4] in (0, 1)):
+            return False
+        if not (W.wide_ok(c[1], W.Ctx()) and W.no17(c[1]) and W.wide_ok(c[2], W.Ctx())):
+            return False
+        return c[4] == 0 or c[1][0] in (2, 3, 12, 26)
+    if item.get("kind") == "hydrate-reactive":
+        # (4 form v sigs steps early)
+        try:
+            four, form, v, sigs, steps, early = c
+            ctx = W.Ctx(True, len(sigs))
+            loc = W.local_ids(v)
+            return (four == 4 and form in (0, 1, 2) and early in (0, 1) and 1 <= len(sigs) <= 4 and all(0 <= x < 100 for x in sigs)
+                    and W.wide_ok(v, ctx) and W.no17(v) and len(set(loc)) == len(loc) and not (loc and form == 0)
+                    and not W.has_op(v, (15,))
+                    and all(len(st) == 3 and all(0 <= i < len(sigs) and 0 <= x < 100 for i, x in st[0])
+                            and all(isinstance(k, int) and k >= 0 for k in st[1]) and all(k in loc for k in st[2]) for st in steps))
+        except Exception:
+            return False
     if item.get("kind") == "hydrate-extra":
         return (isinstance(c, list) and len(c) == 4 and c[0] == 0 and c[3] in (0, 1) and shape_ok(c[1]) and shape_ok(c[2])
                 and content_ok(c[1]) and not has_raw(c[1]) and not has17(c[1]))
@@ -679,6 +700,45 @@ def generate(rng, tier):
                 if has_raw(x) or not content_ok(x):
                     x = x[3][0]
             yield dict(case=[0, x, flip_extras(rng, x), rng.randint(0, 1)], kind="hydrate-extra", compare=False)
+        if i % 3 == 0:
+            yield gen_wide_case(rng)
+        if i % 3 == 1:
+            yield gen_reactive_case(rng)
+
+
+def gen_wide_case(rng):
+    """the wide grammar (coverage/C05.md): other value types and representations, container instantiations,
+    attribute kinds, attribute spreading, further elements; hydrated through hydrate_from / hydrate_from_position"""
+    ctx = W.Ctx()
+    v = W.gen_wide(rng, rng.choice([1, 2, 2, 3]), ctx)
+    if rng.random() < 0.5:
+        v = [2, rng.choice([0, 3, 5]), W.gen_attrs(rng), [v] + [W.gen_wide(rng, 1, W.Ctx()) for _ in range(rng.randint(0, 2))]]
+    v2 = W.mutate_wide(rng, v, W.Ctx()) if rng.random() < 0.85 else W.gen_wide(rng, 2, W.Ctx())
+    entry = int(v[0] in (2, 3, 12, 26) and rng.random() < 0.35)
+    return dict(case=[6, v, v2, rng.randint(0, 1), entry], kind="hydrate-wide", compare=False)
+
+
+def gen_reactive_case(rng):
+    """views with dynamic parts (closures / shared functions / signals as children and attribute values, local
+    Suspends), hydrated under a running executor and driven through signal writes next to a client-built twin"""
+    while True:
+        nsig = rng.choice([1, 2, 2, 3])
+        ctx = W.Ctx(True, nsig)
+        v = W.gen_wide(rng, rng.choice([1, 2, 2, 3]), ctx)
+        v = [2, rng.choice([0, 3, 5]), [], [v] + [W.gen_wide(rng, 1, ctx) for _ in range(rng.randint(0, 2))]]
+        dynamic = W.has_op(v, (27,)) or W.local_ids(v) or any(x[0] == 26 and any(a[0] >= 10 for a in x[2]) for x in W.walk(v))
+        if dynamic and not W.has_op(v, (15,)):
+            break
+    loc = W.local_ids(v)
+    form = rng.choice([1, 2]) if loc else rng.choice([0, 0, 1, 2])
+    sigs = [rng.randint(0, 9) for _ in range(nsig)]
+    steps = []
+    for _ in range(rng.randint(1, 4)):
+        writes = [[rng.randrange(nsig), rng.randint(0, 9)] for _ in range(rng.choice([1, 1, 2, 3]))]
+        picks = [rng.randint(0, 7) for _ in range(rng.choice([0, 0, 3, 6]))]
+        comps = [k for k in loc if rng.random() < 0.4]
+        steps.append([writes, picks, comps])
+    return dict(case=[4, form, v, sigs, steps, int(rng.random() < 0.3)], kind="hydrate-reactive", compare=False)
 
 
 def gen_streamed(rng):
@@ -735,7 +795,26 @@ def gen_resolved(rng):
 def oracle(item, impl):
     if isinstance(impl, str):
         return "harness error / panic outside hydrate: " + impl[:200]
-    if item.get("kind") == "hydrate-extra":
+    if not isinstance(impl, list):
+        return "malformed observation"
+
+    if item.get("kind") == "hydrate-reactive":
+        if len(impl) == 2 and impl[1] == [0]:
+            return "hydration failed: a node of the expected kind was not found where the walk looked for it"
+        if len(impl) != 6 or impl[1][0] != 1:
+            return "malformed observation"
+        if impl[2] != 1:
+            return "hydrate created, removed or replaced DOM nodes"
+        for k, eq in enumerate(impl[3]):
+            if eq != 1:
+                return ("idle point %d (0 = after hydration, then one per step, last = all futures completed): the hydrated tree "
+                        "differs from the client-built twin driven by the same signals (marker comments aside)" % k)
+        if impl[4] != 0:
+            return "after the hydrated state and the twin were dropped a signal write still mutated the DOM %d times" % impl[4]
+        if impl[5] != 0:
+            return "%d DOM operations of the hydrated view or its twin were rejected by the DOM (wrong parent / anchor)" % impl[5]
+        return None
+    if item.get("kind") in ("hydrate-extra", "hydrate-wide"):
         if len(impl) == 3 and impl[2] == [0]:
             return "hydration failed: a node of the expected kind was not found where the walk looked for it"
         if len(impl) < 6:
@@ -799,7 +878,7 @@ def oracle(item, impl):
 
 
 def nontrivial(item, model):
-    if item.get("kind") in ("streamed", "resolved", "hydrate-extra"):
+    if item.get("kind") in ("streamed", "resolved", "hydrate-extra", "hydrate-wide", "hydrate-reactive"):
         return True
     if isinstance(model, str) or len(model) < 3 or item.get("kind") == "streamed-forms":
         return False
@@ -813,12 +892,15 @@ def nontrivial(item, model):
 
 
 def classify(item, impl, model):
-    if isinstance(impl, str):
+    if not isinstance(impl, list):
         return None
     if item.get("kind") == "streamed":
         # F-C05-d = C07's open finding F-C07-a seen from the hydration side: exactly the streamed cases in
         # which the Position a pending Suspend hands back changes the markup
         return "F-C05-d" if stale_position_matters(item) else None
+    if item.get("kind") == "hydrate-wide" and len(impl) >= 6 and impl[2][0] == 1 and impl[3] == 1 \
+            and any(x[0] == 15 and x[3] for x in W.walk(item["case"][1])):
+        return "F-C05-c"
     if item.get("kind") == "hydrate" and len(impl) >= 6 and impl[2][0] == 1 and impl[3] == 1 \
             and has_raw_parts(item["case"][1]):
         # hydration itself succeeded and created nothing: what differs is the content of a raw-text element
@@ -891,6 +973,14 @@ def _show_dom(d):
 
 def describe(it):
     c = it["case"]
+    if c[0] == 6:
+        return "hydrate (%s) %s ; then rebuild with %s" % (
+            "hydrate_from_position(el, Position::Current)" if c[4] else "hydrate_from(root)", W.show(c[1]), W.show(c[2]))
+    if c[0] == 4:
+        return "%s of %s with signals %r%s ; hydrate next to a client-built twin ; steps %s ; then complete all, drop both" % (
+            ["to_html", "in-order stream", "out-of-order stream"][c[1]], W.show(c[2]), c[3],
+            " (first writes before any poll)" if c[5] else "",
+            "; ".join("set %s, poll %r, complete %r" % (",".join("s%d=%d" % (i, x) for i, x in w), p, k) for w, p, k in c[4]))
     if c[0] == 1:
         return "streamed forms of %s" % _show(c[1])
     if c[0] == 3:
